@@ -10,14 +10,18 @@
       environment reports RUNNING: the task's ROLE is told ERROR (task.state is not
       touched) and a goroutine queues env.TryTransition(STOP_ACTIVITY);
     * core/workflow/taskrole.go + aggregatorrole.go  = RoleTree.updState / updStatus;
-    * core/workflow/parentadapter.go updateState: a NON-BLOCKING send on the unbuffered
-      channel of every subscriber: `notify` delivers iff the watcher is parked at its
-      receive (`ready`, decided by the schedule);
+    * core/workflow/parentadapter.go updateState: a NON-BLOCKING send on the channel of
+      every subscriber (`notify`). The watcher's channel has a buffer of one value
+      (`Cfg.buffered`, the code as it is since "fix: the workflow state watcher cannot miss
+      an ERROR …"): the value is kept if the buffer is empty and dropped if it is full.
+      `legacyCfg` is the code before: an unbuffered channel, the value is delivered iff the
+      watcher is parked at its receive at that instant (`ready`, decided by the schedule);
     * core/environment/environment.go subscribeToWfState: the watcher goroutine
-      (`Watch`): on ERROR it arms a 500 ms timer and leaves its loop, on DONE it just
-      leaves; the timer (`Label.timer`) runs GO_ERROR through TryTransition, forces the
-      state to ERROR if that is refused, and sends STOP to every task whose own state is
-      RUNNING;
+      (`Watch`): it takes the pending value (`Label.take`), then (`Label.look`,
+      `Cfg.reread`) re-reads the root role's state — ERROR there overrides a stale value —
+      and on ERROR arms a 500 ms timer and leaves its loop, on DONE it just leaves; the timer
+      (`Label.timer`) runs GO_ERROR through TryTransition, forces the state to ERROR if that
+      is refused, and sends STOP to every task whose own state is RUNNING;
     * Model/Env for the environment machine itself (GO_ERROR bookkeeping, controlApi).
 
   Time is abstracted to enabledness: an in-flight transition holds the transition
@@ -77,12 +81,30 @@ def Kind.drives (k : Kind) (envSt : St) : Bool := (effect k envSt).st == some TS
 /-- Does it leave everything but the task's own role alone when the task is not critical? -/
 def Kind.quiet (k : Kind) (envSt : St) : Bool := !(effect k envSt).stop
 
+/-- The two things "fix: the workflow state watcher cannot miss an ERROR" changed in
+    subscribeToWfState. -/
+structure Cfg where
+  buffered : Bool   -- `notify := make(chan sm.State, 1)` (false: `make(chan sm.State)`)
+  reread : Bool     -- after a receive: `if wfState != sm.ERROR && wf.GetState() == sm.ERROR { wfState = sm.ERROR }`
+  deriving DecidableEq, Repr, Inhabited
+
+/-- The code as it is (tied to the source by `C03_watcher_is_code`). -/
+def codeCfg : Cfg := { buffered := true, reread := true }
+
+/-- The code as it was before the repair (finding notify_dropped). -/
+def legacyCfg : Cfg := { buffered := false, reread := false }
+
 /-- The watcher goroutine of subscribeToWfState. -/
 inductive Watch where
-  | parked   -- in its loop (at the select, or busy between two selects: `ready` tells)
+  | parked   -- in its loop (at the select, or — unbuffered channel only — busy between two selects: `ready` tells)
+  | holding (v : TState)  -- has taken `v` from its channel, has not yet looked at it (buffered channel only)
   | armed    -- saw ERROR: handlingError, 500 ms timer set, loop left
   | gone     -- timer ran / saw DONE / unsubscribed
   deriving DecidableEq, Repr, Inhabited
+
+def Watch.inLoop : Watch → Bool
+  | .parked | .holding _ => true
+  | _ => false
 
 /-- A transition of the environment that holds the transition mutex. -/
 structure Inflight where
@@ -101,27 +123,57 @@ structure Sys where
   updq : List (List Nat × TState) := []  -- replies that arrived: `go updateTaskState(…)` goroutines not yet run (unordered)
   stopReq : Nat := 0                -- STOP_ACTIVITY requests queued by handleDeviceEvent
   roleOnly : List (List Nat × TState) := []  -- leaves whose ROLE was told ERROR directly, with the task's own state
-  dropped : Nat := 0                -- ERROR notifications that found the watcher away from its receive
+  chan : Option TState := none      -- the value waiting in the watcher's channel (buffered channel only)
+  dropped : Nat := 0                -- ERROR notifications that were dropped (watcher away from its receive / buffer full)
   log : List Step := []             -- what the environment machine did since the failure
   stopped : List (List Nat) := []   -- tasks that were sent STOP by the timer function / a queued STOP_ACTIVITY
   transRes : Option (Bool × St) := none  -- how the in-flight transition ended: succeeded?, state reported
   deriving Repr, Inhabited
 
-/-- `ParentAdapter.updateState`: `select { case ch <- s: default: }` towards the watcher. -/
-def notify (s : Sys) (v : Option TState) (ready : Bool) : Sys :=
-  match v, s.w with
-  | some st, .parked =>
-    if ready then
-      if st = .ERROR then { s with w := .armed }
-      else if st = .DONE then { s with w := .gone }
-      else s
-    else if st = .ERROR then { s with dropped := s.dropped + 1 } else s
-  | _, _ => s
+/-- The cached state of the first top-level role (the root aggregator): `wf.GetState()`. -/
+def rootState : Forest → TState
+  | .agg st _ _ _ => st
+  | .leaf _ _ st _ _ => st
+  | .nil => .INVARIANT
+
+def rootStatus : Forest → TStatus
+  | .agg _ su _ _ => su
+  | .leaf _ _ _ su _ => su
+  | .nil => .UNDEFINED
+
+/-- What the watcher does with a value it has received: (re-read of the root,) ERROR ⇒ arm
+    the timer and leave, DONE ⇒ leave, anything else ⇒ back to the select. -/
+def react (c : Cfg) (s : Sys) (v : TState) : Sys :=
+  let v' := if c.reread && v != .ERROR && rootState s.f == .ERROR then .ERROR else v
+  if v' = .ERROR then { s with w := .armed }
+  else if v' = .DONE then { s with w := .gone }
+  else { s with w := .parked }
+
+/-- `ParentAdapter.updateState`: `select { case ch <- s: default: }` towards the watcher.
+    Buffered channel: the value goes into the buffer if that is empty (a watcher waiting at
+    its receive gets it through `take` as the very next step) and is dropped otherwise;
+    `ready` plays no role. Unbuffered channel: delivered iff the watcher is at its receive. -/
+def notify (c : Cfg) (s : Sys) (v : Option TState) (ready : Bool) : Sys :=
+  match v with
+  | none => s
+  | some st =>
+    if c.buffered then
+      if s.w.inLoop then
+        match s.chan with
+        | none => { s with chan := some st }
+        | some _ => if st = .ERROR then { s with dropped := s.dropped + 1 } else s
+      else s   -- the watcher has left its loop: nobody will ever receive
+    else
+      match s.w with
+      | .parked =>
+        if ready then react c s st
+        else if st = .ERROR then { s with dropped := s.dropped + 1 } else s
+      | _ => s
 
 /-- `updateTaskState(id, v)` of one task (a command reply, or the watcher's STOP). -/
-def setLeaf (s : Sys) (p : List Nat) (v : TState) (ready : Bool) : Sys :=
+def setLeaf (c : Cfg) (s : Sys) (p : List Nat) (v : TState) (ready : Bool) : Sys :=
   let r := updState s.f p v
-  notify { s with f := r.1, roleOnly := s.roleOnly.filter (fun x => x.1 != p) } r.2 ready
+  notify c { s with f := r.1, roleOnly := s.roleOnly.filter (fun x => x.1 != p) } r.2 ready
 
 /-- Leaves with their paths (from the owner of the sibling list, first index `i`). -/
 def leavesFrom (i : Nat) : Forest → List (List Nat × TState × TStatus)
@@ -143,7 +195,7 @@ def roleStateAt (f : Forest) (p : List Nat) : TState :=
   | none => .UNKNOWN
 
 /-- One task affected by a failure of kind `k`. -/
-def failOne (k : Kind) (s : Sys) (p : List Nat) (ready : Bool) : Sys :=
+def failOne (c : Cfg) (k : Kind) (s : Sys) (p : List Nat) (ready : Bool) : Sys :=
   let e := effect k s.env.st
   let r := match e.st with
     | some st => updState s.f p st
@@ -151,20 +203,20 @@ def failOne (k : Kind) (s : Sys) (p : List Nat) (ready : Bool) : Sys :=
   let f2 := match e.su with
     | some su => (updStatus r.1 p su).1
     | none => r.1
-  notify { s with f := f2, stopReq := s.stopReq + (if e.stop then 1 else 0),
-                  roleOnly := if e.roleOnly then (p, ownState s p (roleStateAt s.f p)) :: s.roleOnly else s.roleOnly } r.2 ready
+  notify c { s with f := f2, stopReq := s.stopReq + (if e.stop then 1 else 0),
+                    roleOnly := if e.roleOnly then (p, ownState s p (roleStateAt s.f p)) :: s.roleOnly else s.roleOnly } r.2 ready
 
 /-- A failure hitting several tasks (all tasks of an executor / agent), one after the other. -/
-def fail (k : Kind) (s : Sys) : List (List Nat × Bool) → Sys
+def fail (c : Cfg) (k : Kind) (s : Sys) : List (List Nat × Bool) → Sys
   | [] => s
-  | (p, rdy) :: rest => fail k (failOne k s p rdy) rest
+  | (p, rdy) :: rest => fail c k (failOne c k s p rdy) rest
 
 /-- `task.IsSafeToStop()` of a controllable task: its OWN state is RUNNING. -/
 def taskRunning (s : Sys) (l : List Nat × TState × TStatus) : Bool :=
   ownState s l.1 l.2.1 == TState.RUNNING
 
-def setLeaves (s : Sys) (ps : List (List Nat)) (v : TState) (ready : Bool) : Sys :=
-  ps.foldl (fun acc p => setLeaf acc p v ready) s
+def setLeaves (c : Cfg) (s : Sys) (ps : List (List Nat)) (v : TState) (ready : Bool) : Sys :=
+  ps.foldl (fun acc p => setLeaf c acc p v ready) s
 
 /-- Internal (non-input) steps. A command reply does two independent things: it counts for
     the transition (`arrive`; the transition ends when all replies are in, `finish`) and it
@@ -176,6 +228,8 @@ inductive Label where
   | finish                        -- the in-flight transition ends and releases the mutex
   | devStop (ok ready : Bool)     -- a queued TryTransition(STOP_ACTIVITY) gets the mutex
   | timer                         -- the watcher's timer function gets the mutex
+  | take                          -- the watcher receives the value waiting in its channel
+  | look                          -- the watcher (re-reads the root and) acts on the value it holds
   deriving DecidableEq, Repr
 
 def enabled (s : Sys) : Label → Bool
@@ -188,6 +242,10 @@ def enabled (s : Sys) : Label → Bool
     | none => false
   | .devStop _ _ => s.inflight.isNone && decide (0 < s.stopReq)
   | .timer => s.inflight.isNone && decide (s.w = .armed)
+  | .take => decide (s.w = .parked) && s.chan.isSome
+  | .look => match s.w with
+    | .holding _ => true
+    | _ => false
 
 def isBody : Step → Bool
   | .body .. => true
@@ -195,26 +253,26 @@ def isBody : Step → Bool
 
 /-- The timer function of subscribeToWfState: GO_ERROR (forced if refused), then STOP to every
     task whose own state is RUNNING (`stopped` records the commands). -/
-def timerStep (s : Sys) : Sys :=
+def timerStep (c : Cfg) (s : Sys) : Sys :=
   let g := tryTransition s.env s.hooks .GO_ERROR true false
   let env' := if g.2.2.isOk then g.1 else if g.1.st = .ERROR then g.1 else { g.1 with st := .ERROR }
   let targets := (leaves s.f).filter (taskRunning s)
   let s1 := { s with env := env', w := .gone, log := s.log ++ g.2.1, stopped := s.stopped ++ targets.map (·.1) }
   -- only a task that is still there (role ACTIVE) answers the STOP
-  setLeaves s1 ((targets.filter (fun l => l.2.2 == TStatus.ACTIVE)).map (·.1)) .CONFIGURED true
+  setLeaves c s1 ((targets.filter (fun l => l.2.2 == TStatus.ACTIVE)).map (·.1)) .CONFIGURED true
 
 /-- `env.TryTransition(NewStopActivityTransition)` from handleDeviceEvent: STOP goes to the
     tasks whose role is ACTIVE; if the body ran and succeeded they all report CONFIGURED. -/
-def devStopStep (s : Sys) (ok ready : Bool) : Sys :=
+def devStopStep (c : Cfg) (s : Sys) (ok ready : Bool) : Sys :=
   let r := tryTransition s.env s.hooks .STOP_ACTIVITY ok false
   let s1 := { s with env := r.1, stopReq := s.stopReq - 1, log := s.log ++ r.2.1 }
   let targets := ((leaves s.f).filter (fun l => l.2.2 == TStatus.ACTIVE)).map (·.1)
   if r.2.1.any isBody then
     let s2 := { s1 with stopped := s1.stopped ++ targets }
-    if ok then setLeaves s2 targets .CONFIGURED ready else s2
+    if ok then setLeaves c s2 targets .CONFIGURED ready else s2
   else s1
 
-def istep (s : Sys) : Label → Sys
+def istep (c : Cfg) (s : Sys) : Label → Sys
   | .arrive =>
     match s.inflight with
     | some i =>
@@ -224,7 +282,7 @@ def istep (s : Sys) : Label → Sys
     | none => s
   | .apply k ready =>
     match s.updq[k]? with
-    | some (p, v) => setLeaf { s with updq := s.updq.eraseIdx k } p v ready
+    | some (p, v) => setLeaf c { s with updq := s.updq.eraseIdx k } p v ready
     | none => s
   | .finish =>
     match s.inflight with
@@ -232,33 +290,49 @@ def istep (s : Sys) : Label → Sys
       let r := if i.api then controlApi s.env s.hooks i.ev i.ok false else tryTransition s.env s.hooks i.ev i.ok false
       { s with env := r.1, inflight := none, log := s.log ++ r.2.1, transRes := some (r.2.2.isOk, r.1.st) }
     | none => s
-  | .devStop ok ready => devStopStep s ok ready
-  | .timer => timerStep s
+  | .devStop ok ready => devStopStep c s ok ready
+  | .timer => timerStep c s
+  | .take =>
+    match s.w, s.chan with
+    | .parked, some v => { s with w := .holding v, chan := none }
+    | _, _ => s
+  | .look =>
+    match s.w with
+    | .holding v => react c s v
+    | _ => s
 
-def irun (s : Sys) (ls : List Label) : Sys := ls.foldl istep s
+def irun (c : Cfg) (s : Sys) (ls : List Label) : Sys := ls.foldl (istep c) s
 
 /-- Every label of the run is enabled when it is taken. -/
-def validRun : Sys → List Label → Bool
+def validRun (c : Cfg) : Sys → List Label → Bool
   | _, [] => true
-  | s, l :: ls => enabled s l && validRun (istep s l) ls
+  | s, l :: ls => enabled s l && validRun c (istep c s l) ls
 
 /-- No internal step is enabled. -/
 def quiescent (s : Sys) : Bool :=
-  !enabled s .arrive && !enabled s (.apply 0 true) && !enabled s .finish && !enabled s (.devStop true true) && !enabled s .timer
+  !enabled s .arrive && !enabled s (.apply 0 true) && !enabled s .finish && !enabled s (.devStop true true) && !enabled s .timer &&
+  !enabled s .take && !enabled s .look
 
-/-- Upper bound on the number of internal steps still possible. -/
+/-- Upper bound on the number of internal steps still possible: every step that is not the
+    watcher's own costs 3 (it can put one value into the watcher's channel, which the watcher
+    then takes and looks at). -/
 def Watch.weight : Watch → Nat
-  | .parked => 2 | .armed => 1 | .gone => 0
+  | .holding _ => 3 | .parked => 2 | .armed => 1 | .gone => 0
+
+def chanWeight (s : Sys) : Nat := if s.chan.isSome then 2 else 0
 
 def budget (s : Sys) : Nat :=
-  (match s.inflight with
-   | some i => 2 * i.pending.length + 1
-   | none => 0) + s.updq.length + s.stopReq + s.w.weight
+  3 * ((match s.inflight with
+        | some i => 2 * i.pending.length + 1
+        | none => 0) + s.updq.length + s.stopReq) + s.w.weight + chanWeight s
 
-/-- The schedule the wall clock produces (replies, end of the transition, the queued STOP,
-    then — 500 ms later — the timer), every notification finding the watcher at its receive. -/
+/-- The schedule the wall clock produces (the watcher goroutine first: it only has to wake
+    up; replies, end of the transition, the queued STOP, then — 500 ms later — the timer),
+    every notification finding the watcher at its receive. -/
 def pick (s : Sys) : Option Label :=
-  if enabled s .arrive then some .arrive
+  if enabled s .take then some .take
+  else if enabled s .look then some .look
+  else if enabled s .arrive then some .arrive
   else if enabled s (.apply 0 true) then some (.apply 0 true)
   else if enabled s .finish then some .finish
   else if enabled s (.devStop true true) then some (.devStop true true)
@@ -268,26 +342,33 @@ def pick (s : Sys) : Option Label :=
 /-- The same, but queued state updates run last (the transition can end, and the timer
     function can look at the tasks' states, before a reply's update has been applied). -/
 def pickLate (s : Sys) : Option Label :=
-  if enabled s .arrive then some .arrive
+  if enabled s .take then some .take
+  else if enabled s .look then some .look
+  else if enabled s .arrive then some .arrive
   else if enabled s .finish then some .finish
   else if enabled s (.devStop true true) then some (.devStop true true)
   else if enabled s .timer then some .timer
   else if enabled s (.apply 0 true) then some (.apply 0 true)
   else none
 
-def settleLate : Nat → Sys → Sys
+def settleLate (c : Cfg) : Nat → Sys → Sys
   | 0, s => s
   | n + 1, s =>
     match pickLate s with
-    | some l => settleLate n (istep s l)
+    | some l => settleLate c n (istep c s l)
     | none => s
 
-def settle : Nat → Sys → Sys
+def settle (c : Cfg) : Nat → Sys → Sys
   | 0, s => s
   | n + 1, s =>
     match pick s with
-    | some l => settle n (istep s l)
+    | some l => settle c n (istep c s l)
     | none => s
+
+/-- The watcher consumes what is waiting in its channel (at most `take`, `look`). -/
+def drain (c : Cfg) (s : Sys) : Sys :=
+  let s1 := if enabled s .take then istep c s .take else s
+  if enabled s1 .look then istep c s1 .look else s1
 
 /-- Does `p` address a critical task/call role of the forest? -/
 def critLeafAt : Forest → List Nat → Bool
@@ -316,16 +397,5 @@ def plainLeafAt : Forest → List Nat → Bool
     | 0 :: rest => plainLeafAt kids rest
     | (i + 1) :: rest => plainLeafAt next (i :: rest)
     | [] => false
-
-/-- The cached state of the first top-level role (the root aggregator). -/
-def rootState : Forest → TState
-  | .agg st _ _ _ => st
-  | .leaf _ _ st _ _ => st
-  | .nil => .INVARIANT
-
-def rootStatus : Forest → TStatus
-  | .agg _ su _ _ => su
-  | .leaf _ _ _ su _ => su
-  | .nil => .UNDEFINED
 
 end Failure
